@@ -170,7 +170,8 @@ static void case_f(ByteSource& in, CaseInfo& ci) {
     case 9: { bool e = a.v.e >= 0 || ref::tmod(a.v.m, ref::pow2(-a.v.e)).is_zero(); int g = mpf_integer_p(a.f); REQUIRE((g != 0) == e, "mpf_integer_p: returned %d, expected %d", g, (int)e); break; }
     default: { struct R { const char* n; int (*fn)(mpf_srcptr); Int lo, hi; };
       R rs[] = {{"mpf_fits_ulong_p", mpf_fits_ulong_p, Int(0), Int::from_u64(ULONG_MAX)}, {"mpf_fits_slong_p", mpf_fits_slong_p, Int((long long)LONG_MIN), Int((long long)LONG_MAX)}, {"mpf_fits_uint_p", mpf_fits_uint_p, Int(0), Int::from_u64(UINT_MAX)},
-                {"mpf_fits_sint_p", mpf_fits_sint_p, Int(INT_MIN), Int(INT_MAX)}, {"mpf_fits_ushort_p", mpf_fits_ushort_p, Int(0), Int(USHRT_MAX)}, {"mpf_fits_sshort_p", mpf_fits_sshort_p, Int(SHRT_MIN), Int(SHRT_MAX)}};
+                {"mpf_fits_sint_p", mpf_fits_sint_p, Int(INT_MIN), Int(INT_MAX)}, {"mpf_fits_ushort_p", mpf_fits_ushort_p, Int(0), Int(USHRT_MAX)}, {"mpf_fits_sshort_p", mpf_fits_sshort_p, Int(SHRT_MIN), Int(SHRT_MAX)},
+                {"mpf_fits_ui_p", mpf_fits_ui_p, Int(0), Int::from_u64(ULONG_MAX)}, {"mpf_fits_si_p", mpf_fits_si_p, Int((long long)LONG_MIN), Int((long long)LONG_MAX)}};   // mpir_ui / mpir_si are 64 bits wide on this platform
       // "would fit when truncated to an integer"
       if (T.is_zero() && a.v.m.neg) ci.label("fits:negative_fraction");
       for (auto& r : rs) { bool e = T >= r.lo && T <= r.hi; int g = r.fn(a.f);
